@@ -22,4 +22,17 @@ RULES = {
         (r'for\s*\(i,\s*mut fut\)\s*in\s*self\.futures\.iter\(\)\.enumerate\(\)', 'let nf_ = self.futures.len(); for i in 0..nf_'),
     ],
     'P3_state_iter_mut_len': [(_iter_mut_to_index_len)],
+    # try_join tuple (compiler expansion): `assert!(!*this.consumed, "..")` expands to
+    # `if !!self.consumed { { ::core::panicking::panic_fmt(format_args!("..")); } };`  =>  assert!(!self.consumed);
+    'TT_panic_assert_not': [
+        (r'if !!(self\.\w+)\s*\{\s*\{\s*::core::panicking::panic_fmt\(format_args!\("[^"]*"\)\);\s*\}\s*\};?', r'assert!(!\1);'),
+    ],
+    # constructor: `_phantom: PhantomData` (core::marker::PhantomData is not imported in generated files)
+    'TT_phantom': [
+        (r'_phantom:\s*PhantomData\b', '_phantom: core::marker::PhantomData'),
+    ],
+    # N6: PollArray::set_all_none through the extracted real function (units/model_pollarray.vx)
+    'TT_state_set_all_none': [
+        (r'self\.state\.set_all_none\(\);', 'pollarray_set_all_none(&mut self.state);'),
+    ],
 }
